@@ -7,6 +7,7 @@ import SLE.Driver.VMD
 import SLE.Driver.UnifyD
 import SLE.Driver.PipelineD
 import SLE.Driver.TruthD
+import SLE.Driver.WatchdogD
 /-! `sle_driver`: reads `family\tpayload\timpl_answer`, prints `model_answer\toracle_verdict`. -/
 open SLE.Driver
 
@@ -26,6 +27,7 @@ def handleLine (line : String) : String :=
       | "vm2" => VMD.handle2 payload impl
       | "unify" => UnifyD.handle payload impl
       | "truth" => TruthD.handle payload impl
+      | "watchdog" => WatchdogD.handle payload impl
       | "pipeline" => PipelineD.handle payload impl
       | "orders" => PipelineD.handleOrders payload impl
       | _ => ("unknown-family", "ok")
